@@ -49,7 +49,7 @@ func TestVerifC03(t *testing.T) {
 	sim.Main(t, sim.Config{
 		Prop:     "C03",
 		Scenario: c03Scenario,
-		Runs:     map[string]int{"quick": 3000, "thorough": 400000},
+		Runs:     map[string]int{"quick": 25000, "thorough": 800000},
 		LeakSig:  "",
 		Real:     []string{"cmd/application connManager.handleNewTCPConn (read loop, classification deadline, discard paths)", "min / prefix (all default prefixes) / obfs4 station transports", "RegistrationManager + ingest pipeline (registrations are ingested through HandleRegUpdates)", "client transports producing the genuine flights that are then corrupted"},
 		Stub:     []string{"TCP connection (simnet: segmentation, pacing, FIN/RST by the prober)", "liveness probes (table)", "detector (recorder)", "ZMQ (harness writes into the ingest channel)", "accept loop / original-destination lookup of handleNewConn (harness passes the phantom and closes the connection when the handler returns)"},
